@@ -4,6 +4,8 @@
 
 package stats
 
+import "math"
+
 // LinearHist is a Histogram with uniformly-sized bins.
 type LinearHist struct {
 	min, max  float64
@@ -20,7 +22,7 @@ func NewLinearHist(min, max float64, nbins int) *LinearHist {
 }
 
 func (h *LinearHist) bin(x float64) int {
-	return int(h.delta * (x - h.min))
+	return int(math.Floor(h.delta * (x - h.min)))
 }
 
 func (h *LinearHist) Add(x float64) {
